@@ -205,8 +205,8 @@ def feature(c):
 THOROUGH = (('AreaSet = {"none", "poly", "a4110", "a4120v2"}',
              'AreaSet = {"none", "poly", "a4105v1", "a4105v2", "a4110", "a4120v1", "a4120v2", "a4120v3", "a4120v2y15", "statcom"}'),
             ("PIdx = {2, 5, 9}", "PIdx = {1, 2, 3, 4, 5, 6, 7, 8, 9}"),
-            ("VIdx = {1, 3, 5, 7}", "VIdx = {1, 2, 3, 4, 5, 6, 7, 8, 9}"),
-            ("VCore = {1, 3, 5, 7}", "VCore = {1, 3, 5, 7, 9}"),
+            ("VIdx = {1, 5, 7}", "VIdx = {1, 2, 3, 4, 5, 6, 7, 8, 9}"),
+            ("VCore = {1, 5, 7}", "VCore = {1, 3, 5, 7, 9}"),
             ("Geos = {1, 3}", "Geos = {4}"))
 
 
